@@ -4,6 +4,10 @@ T1: Gen/TypeTables.v regenerated from the real relations (complete truth tables)
 T2: (a) DataTypeValidator.validate on every (declared, column type | absent, strict option) vs Model.Validate,
     (b) end-to-end run_all matrix (declared x produced Arrow type x {lenient, strict option, strict API flag}
         x frameworks x typed/untyped mix) vs the spec evaluated in Coq,
+    (b3) dependency chains of depth 2-4 (Model/ValidateChain.v),
+    (b4) WHICH features reach the type check: requests with Links / index_columns() / GlobalFilters on three frameworks; the
+         feature sets observed at ComputeFramework.run_validate_output_features -> DataTypeValidator.validate vs
+         Model/ValidateSet.v (harness/c17_links.py),
     (c) Engine.set_data_type conflicts at prepare time (12 x 12, exhaustive).
 """
 from __future__ import annotations
@@ -431,7 +435,11 @@ def run(rep: vlib.Reporter, tier: str, seed: int) -> None:
         "from_arrow_type on 24 Arrow types of the working tree",
         "pyarrow type predicates (pa.types.is_*) are library behaviour",
         "modelled, not verified: DataTypeValidator.validate control flow, mlodaAPI._process_features strict propagation, "
-        "Engine.set_data_type (hand-written Model/Validate.v tied by exhaustive correspondence)"]
+        "Engine.set_data_type (hand-written Model/Validate.v tied by exhaustive correspondence)",
+        "modelled, not verified: Engine._process_feature / _add_index_feature / _add_filter_feature / create_index_feature / "
+        "add_feature_to_collection (hand-written Model/ValidateSet.v, tied by the generated family `links`: observed feature sets at "
+        "the output validation = the model's collection); the produced Arrow type on Pandas / PythonDict is what pyarrow infers "
+        "(computed in the harness without mloda)"]
     found_input = False
     from harness import srctie      # source-text tie (Props/SrcTie.v): the literal type sets read from the source text = the tables
     found_input = (not srctie.check(rep)) or found_input
@@ -540,6 +548,10 @@ def run(rep: vlib.Reporter, tier: str, seed: int) -> None:
     rep.count(len(chc))
     rep.add("chains", {"cases": len(chc), "distribution": cdist, "model_disagreements": len(bad_m), "statement_disagreements": len(bad_s)})
 
+    # (b4) WHICH features reach the type check: requests with Links / index columns / GlobalFilters (Model/ValidateSet.v)
+    from harness import c17_links
+    found_input = c17_links.run_family(rep, tier, seed) or found_input
+
     # (c)
     cc = conflict_cases()
     bad, info = vlib.run_cases("C17", "conflict", REQ, "chk_conflict", [conflict_term(c) for c in cc], extra_defs=EXTRA_DEFS,
@@ -559,7 +571,9 @@ def run(rep: vlib.Reporter, tier: str, seed: int) -> None:
     rep.add("rule", "exhaustive: (declared in None+11) x (24 Arrow column types + absent) x strict option {absent,True,False} at "
                     "validator level; end-to-end run_all over frameworks x declared x producible types x {lenient, strict "
                     "option, strict API flag} x {single, typed+untyped mix}; prepare conflicts 12x12. non-trivial = a "
-                    "declared type meets a present column (the type check is actually reached)")
+                    "declared type meets a present column (the type check is actually reached); family links: fixed matrix "
+                    "(frameworks x modes x 15 key column types x consumer/direct) + generated requests (1-3 linked roots, consumer or "
+                    "direct, rules, filters), non-trivial = a typed feature and an engine-added untyped feature reached the validator")
     rep.add("exhaustive", True)
     for c in (vc[40], ec[100], ec[-1], cc[17]):
         rep.sample(c)
@@ -589,6 +603,10 @@ def replay(path: str) -> int:
     if r.get("kind") == "srctie":
         from harness import srctie
         srctie.replay(r, show=True)
+        return 0
+    if r.get("kind") == "links":
+        from harness import c17_links
+        c17_links.replay(r)
         return 0
     if r.get("kind") == "e2e":
         obs = e2e_one(r["fw"], r["declared"], r["atype"], r["mode"], r["mix"])
